@@ -33,10 +33,16 @@ func (p *Prog) Dump(w io.Writer, fn *ssa.Function, deep bool) {
 			case *ssa.Store:
 				if fp, ok := p.fieldWriteTarget(in); ok {
 					fmt.Fprintf(w, "   write %s = %s   @%s\n", fp, p.Render(x.Val), p.Pos(x.Pos()))
+				} else if ia, ok := x.Addr.(*ssa.IndexAddr); ok {
+					if _, isArr := ia.X.(*ssa.Alloc); !isArr {
+						fmt.Fprintf(w, "   idxstore %s[%s] = %s   @%s\n", p.Render(ia.X), p.Render(ia.Index), p.Render(x.Val), p.Pos(x.Pos()))
+					}
 				}
 			case *ssa.MapUpdate:
 				if fp, ok := p.fieldWriteTarget(in); ok {
 					fmt.Fprintf(w, "   write %s[%s] = %s   @%s\n", fp, p.Render(x.Key), p.Render(x.Value), p.Pos(x.Pos()))
+				} else {
+					fmt.Fprintf(w, "   mapupdate %s[%s] = %s   @%s\n", p.Render(x.Map), p.Render(x.Key), p.Render(x.Value), p.Pos(x.Pos()))
 				}
 			case *ssa.RunDefers:
 				fmt.Fprintf(w, "   rundefers\n")
